@@ -16,7 +16,7 @@ import desper
 from hypothesis import strategies as st
 
 from vlib.core import PropertyViolation, with_budget, StepBudgetExceeded, raised_in_repo
-from vlib.classes import (build_dag, has_diamond, EV_ADD, EV_REMOVE, EV_RENAMED, EV_PROBE, EV_FALSY, EV_EQ,
+from vlib.classes import (build_dag, add_class, has_diamond, EV_ADD, EV_REMOVE, EV_RENAMED, EV_PROBE, EV_FALSY, EV_EQ,
                           EV_UNHASH)
 
 EXPLICIT_IDS = [1, 2, 3, 4, 6, 'a', ('t', 1), -1, 0, True, 2.0, '', 9]
@@ -126,7 +126,8 @@ def case_strategy(weights, max_ops=40):
     # idgen: which id_generator_factory the world is built with (0/1: the default count(1); 2: count(3);
     # 3: single letters, colliding with the explicit str id 'a')
     return st.fixed_dictionaries({'classes': classes_strategy(), 'ops': ops_strategy(weights, max_ops),
-                                  'idgen': st.integers(0, 3), 'amp': amp_strategy()})
+                                  'idgen': st.integers(0, 3), 'amp': amp_strategy(),
+                                  'late': st.integers(0, 3).map(lambda k: (0, 0, 1, 2)[k])})
 
 
 # ---- amplification: long and repetitive histories ---------------------------------------------------------
@@ -223,7 +224,12 @@ class Run:
         self.case = case
         self.checks = set(checks)
         self.log = []
-        self.classes, self.eff_bases = build_dag(case['classes'])
+        # late classes: the last one or two classes of the universe are DEFINED in the middle of the history (a
+        # plugin, a lazily imported module): by then every earlier class has been used as a query type
+        spec = list(case['classes'])
+        nlate = min(case.get('late', 0), max(0, len(spec) - 2))
+        self.late_specs = spec[len(spec) - nlate:] if nlate else []
+        self.classes, self.eff_bases = build_dag(spec[:len(spec) - nlate] if nlate else spec)
         self.ev = [getattr(c, '__events__', {}) for c in self.classes]
         self.world = make_world(case)
         self.sentinel = None
@@ -1330,8 +1336,15 @@ class Run:
             self.flags['amplified_%s' % self.case['amp'][0]] += 1
         try:
             self.after_step(full=True)
+            late_at = min(len(self.case['ops']), n) // 2
             for i, op in enumerate(self.ops):
                 self.step_ix = i
+                if self.late_specs and i == late_at:
+                    for c in self.late_specs:
+                        add_class(self.classes, self.eff_bases, c)
+                        self.ev.append(getattr(self.classes[-1], '__events__', {}))
+                    self.late_specs = []
+                    self.flags['classes_defined_mid_history'] += 1
                 self.step(op)
                 self.after_step(full=(i % self.stride == 0 or i == n - 1))
             if self.amplified and not self.enabled and 'lifecycle' in self.checks:
